@@ -234,26 +234,25 @@ Lemma R_push_value c o node st : iopts_lf o -> R c st -> R c (push_value c o nod
 Proof.
   intros [Hb Ha] H. unfold push_value.
   destruct (negb (truthy_l (an_value node)) && match an_children node with [] => false | _ => true end); [exact H|].
-  assert (Hmulti : forall lines maxl st0, R c st0 ->
-            R c (fold_left (fun st line =>
-                       let st := map_out (fun os => os_push_newline (oc_fmt c) os (Some None)) st in
-                       let st := match io_before_text o with [] => st | b => push_raw b st end in
-                       let st := push_tokens c line st in
-                       match io_after_text o with
-                       | [] => st
-                       | a => push_raw a (push_raw (repeat_str [c_space] (maxl - value_length line)) st)
-                       end) lines st0)).
-  { intros lines maxl. apply R_fold_left. intros st' line H'. cbv zeta.
+  assert (Hmulti : forall lines maxl field acc, R c (fst acc) ->
+            R c (fst (fold_left (pv_line c o maxl field) lines acc))).
+  { intros lines maxl field. induction lines as [|line lines IHl]; intros [st' nf] H'; cbn [fold_left]; [exact H'|].
+    apply IHl. cbn [fst] in H'. unfold pv_line. cbv zeta.
     assert (H1 : R c (match io_before_text o with [] => map_out (fun os => os_push_newline (oc_fmt c) os (Some None)) st'
                       | b => push_raw b (map_out (fun os => os_push_newline (oc_fmt c) os (Some None)) st') end)).
     { destruct (io_before_text o) eqn:E; [auto with reachdb|]. apply R_push_raw; [exact Hb|auto with reachdb]. }
-    destruct (io_before_text o) eqn:Eb; destruct (io_after_text o) eqn:Ea;
-      repeat first [apply R_push_tokens | apply R_push_raw; [first [apply lf_spaces | exact Ha | exact Hb]|] | exact H1 | apply R_newline; exact H' ]. }
+    set (stb := match io_before_text o with [] => map_out (fun os => os_push_newline (oc_fmt c) os (Some None)) st'
+                | b => push_raw b (map_out (fun os => os_push_newline (oc_fmt c) os (Some None)) st') end) in *.
+    assert (H3 : R c (push_tokens c line (mkFs (fs_out stb) field))) by (apply R_push_tokens; exact H1).
+    destruct (io_after_text o) eqn:Ea; cbn [fst]; [exact H3|].
+    apply R_push_raw; [exact Ha|]. apply R_push_raw; [apply lf_spaces|]. exact H3. }
   destruct (split_by_lines _) as [|l0 [|l1 ls]].
-  - apply R_map_level. cbn [fold_left]. apply R_map_level, H.
+  - cbn [fold_left]. apply R_map_level. unfold R. cbn [fs_out]. apply (R_map_level c st 1 H).
   - destruct (truthy_s (an_name node) || truthy_l (an_attrs node)); [apply R_push_tokens, R_push_raw; [reflexivity|exact H]|].
     apply R_push_tokens, H.
-  - apply R_map_level, Hmulti, R_map_level, H.
+  - match goal with |- context [fold_left (pv_line c o ?m ?f) ?ls ?acc] =>
+      pose proof (Hmulti ls m f acc) as Hm; destruct (fold_left (pv_line c o m f) ls acc) as [stf nff] end.
+    apply R_map_level. apply Hm. cbn [fst]. apply R_map_level, H.
 Qed.
 
 Lemma R_indent_step c o parent node index next st :
